@@ -26,65 +26,55 @@ Print Assumptions markup_innermost.
 (* ================= clause 1b: layout =================
    [seg_spec text attrs s] (AttrFlowLayout.v) is what the property demands of the bytes a
    segment puts on the line: every byte of displayed character i carries rle_get_at attrs i;
-   alignment padding carries None.  For EVERY text whose characters encode to >= 1 byte,
-   EVERY attribute list with non-negative runs and EVERY layout of well-formed segments (any
-   order, any repetition, any number of lines - the attribute walker state is shared), each
-   canvas row is exactly the concatenation of its segments' demands followed by None fill. *)
-Theorem layout_keeps_attr :
-  forall text attrs lines maxcol rows,
-    Forall (fun c => 1 <= c_enc c) text -> nonneg attrs -> Forall (Forall (wf_seg text)) lines ->
-    apply_text_layout text attrs lines maxcol = Ok rows ->
-    Forall2 (fun segs row => exists k, expand row = flat_map (seg_spec text attrs) segs ++ repeat None k)
+   alignment padding carries None.  The only premise on the text is the data condition
+   [enc_ok]: encoded lengths are not negative, and a byte of a bytes text / an ASCII character
+   of a str text becomes at most one byte (0 for SO/SI) - true of every target encoding urwid
+   accepts; nothing is assumed of non-ASCII characters (0, 1, 2, 3, 4 ... bytes).
+   For EVERY such text (str or bytes), EVERY attribute list with non-negative runs and EVERY
+   layout of well-formed segments (any order, any repetition, any number of lines - the
+   attribute walker state is shared): each canvas row is exactly the concatenation of its
+   segments' demands followed by None fill, and it contains no zero-length run (so
+   TextCanvas.content() / rle_product never stops early). *)
+Theorem layout_keeps_attr_full :
+  forall isb text attrs lines maxcol rows,
+    enc_ok isb text -> nonneg attrs -> Forall (Forall (wf_seg text)) lines ->
+    apply_text_layout isb text attrs lines maxcol = Ok rows ->
+    Forall2 (fun segs row =>
+               (exists k, expand row = flat_map (seg_spec text attrs) segs ++ repeat None k) /\ nozero row)
             lines rows.
 Proof. exact layout_rows_spec. Qed.
-Print Assumptions layout_keeps_attr.
+Print Assumptions layout_keeps_attr_full.
 
 (* a well-formed layout never raises ValueError out of the segment loop *)
 Theorem layout_wellformed_no_error :
-  forall text attrs lines maxcol,
-    Forall (fun c => 1 <= c_enc c) text -> nonneg attrs -> Forall (Forall (wf_seg text)) lines ->
-    exists lss, do_lines text attrs maxcol (0, 0) lines = Ok lss.
+  forall isb text attrs lines maxcol,
+    enc_ok isb text -> nonneg attrs -> Forall (Forall (wf_seg text)) lines ->
+    exists lss, do_lines isb text attrs maxcol (0, 0) lines = Ok lss.
 Proof. exact layout_no_value_error. Qed.
 Print Assumptions layout_wellformed_no_error.
 
-(* The same per-segment statement under the weaker, exact condition: the fast path of
-   attrrange (destw = end - start) is only taken for segments whose characters are all one
-   byte long.  One segment, any accumulated line. *)
+(* one segment appended to any accumulated line *)
 Theorem layout_segment_keeps_attr :
-  forall text attrs ls s,
-    encs_nonneg text -> nonneg attrs -> wf_seg text s -> seg_uniform text s -> ls_ok attrs ls ->
-    exists ls', do_seg text attrs ls s = Ok ls' /\
+  forall isb text attrs ls s,
+    enc_ok isb text -> nonneg attrs -> wf_seg text s -> ls_ok attrs ls ->
+    exists ls', do_seg isb text attrs ls s = Ok ls' /\
       expand (l_attr ls') = expand (l_attr ls) ++ seg_spec text attrs s /\ ls_ok attrs ls'.
 Proof. exact do_seg_spec. Qed.
 Print Assumptions layout_segment_keeps_attr.
 
-(* The full clause drops the ">= 1 byte" hypothesis (characters SO/SI encode to 0 bytes).
-   It is FALSE of the faithful model: *)
-Definition layout_keeps_attr_full : Prop :=
-  forall text attrs lines maxcol rows,
-    Forall (fun c => 0 <= c_enc c) text -> nonneg attrs -> Forall (Forall (wf_seg text)) lines ->
-    apply_text_layout text attrs lines maxcol = Ok rows ->
-    Forall2 (fun segs row => exists k, expand row = flat_map (seg_spec text attrs) segs ++ repeat None k)
-            lines rows.
+(* the premise cannot be dropped: if an ASCII character could become two bytes the shortcut
+   of attrrange would misplace the boundary (data that no supported encoding produces) *)
+Example enc_ok_needed :
+  apply_text_layout false [Chr 2 1 true; Chr 0 0 true] [(Some 1, 1); (Some 2, 1)] [[SText 1 0 2]] 1
+  = Ok [[(Some 1, 1); (Some 2, 1)]].
+Proof. vm_compute. reflexivity. Qed.
 
-(* witness: "e-acute" (2 bytes) tagged 1, then SO (0 bytes) tagged 2, one segment (1, 0, 2):
-   the second byte of the first character gets attribute 2.
-   Replayed on the implementation: corpus/C17/so_shift.json *)
-Theorem layout_keeps_attr_full_refuted : ~ layout_keeps_attr_full.
-Proof.
-  intro H.
-  specialize (H [Chr 2 1; Chr 0 0] [(Some 1, 1); (Some 2, 1)] [[SText 1 0 2]] 1 [[(Some 1, 1); (Some 2, 1)]]).
-  assert (F : Forall2 (fun segs row => exists k, expand row = flat_map (seg_spec [Chr 2 1; Chr 0 0] [(Some 1, 1); (Some 2, 1)]) segs ++ repeat None k)
-                      [[SText 1 0 2]] [[(Some 1, 1); (Some 2, 1)]]).
-  { apply H.
-    - constructor; [cbn; lia | constructor; [cbn; lia | constructor]].
-    - constructor; [cbn; lia | constructor; [cbn; lia | constructor]].
-    - constructor; [|constructor]. constructor; [|constructor]. cbn. unfold zlen. cbn. lia.
-    - vm_compute. reflexivity. }
-  inversion F as [|? ? ? ? [k Hk] _]; subst.
-  vm_compute in Hk. destruct k; discriminate.
-Qed.
-Print Assumptions layout_keeps_attr_full_refuted.
+(* regression for the repaired defect: e-acute (2 bytes, not ASCII) tagged 1 then SO (0 bytes)
+   tagged 2: both bytes of the first character carry 1 and no zero-length run is left *)
+Example so_next_to_multibyte :
+  apply_text_layout false [Chr 2 1 false; Chr 0 0 true] [(Some 1, 1); (Some 2, 1)] [[SText 1 0 2]] 1
+  = Ok [[(Some 1, 2)]].
+Proof. vm_compute. reflexivity. Qed.
 
 (* ================= clause 2: attribute maps ================= *)
 (* fill_attr_apply on a view that already has a map (unique keys, as in a dict) or none:
@@ -156,18 +146,32 @@ Proof. intros n H. split; [now apply rgb_number | now apply rgb_range]. Qed.
 Print Assumptions sgr_truecolour_components.
 
 (* ================= clause 3: palette resolution ================= *)
-(* EVERY history of register_palette_entry / set_terminal_properties (no aliases) from a new
-   Screen: a registered name resolves to the escape of its entry for the active depth *)
-Theorem palette_resolves_without_alias :
-  forall ops bib bbb name e a, no_alias ops ->
+(* EVERY history of register_palette_entry / register_palette aliases / set_terminal_properties
+   from a new Screen: a name present in the palette - registered or an alias - resolves to the
+   escape of its entry for the active depth.  (An operation that raises leaves the screen as it
+   was; no premise on the history.) *)
+Theorem palette_resolves_full :
+  forall ops bib bbb name e a,
     let s := fst (prun (screen_init bib bbb) ops) in
     plookup name (s_palette s) = Some e -> select_spec (s_colors s) e = Ok a ->
     attr_to_escape s (DName name) = attrspec_to_escape (s_bib s) (s_bbb s) a.
 Proof.
-  intros ops bib bbb name e a Hn s. apply resolve_registered.
-  apply prun_consistent; [apply init_consistent | exact Hn].
+  intros ops bib bbb name e a s. apply resolve_registered.
+  apply prun_consistent. apply init_consistent.
 Qed.
-Print Assumptions palette_resolves_without_alias.
+Print Assumptions palette_resolves_full.
+
+(* ... and, chained with the round trip: the terminal reads back the pen that entry specifies *)
+Theorem palette_name_to_terminal :
+  forall ops bib bbb name e a,
+    let s := fst (prun (screen_init bib bbb) ops) in
+    plookup name (s_palette s) = Some e -> select_spec (s_colors s) e = Ok a -> valid_spec a ->
+    decode_sgr (attr_to_escape s (DName name)) = visual (s_bib s) (s_bbb s) a.
+Proof.
+  intros ops bib bbb name e a s Hp Hs V.
+  unfold s in *. rewrite (palette_resolves_full ops bib bbb name e a Hp Hs). now apply sgr_roundtrip.
+Qed.
+Print Assumptions palette_name_to_terminal.
 
 (* a name without an escape entry (in particular: never registered) gets default/default,
    which the terminal reads as a reset pen *)
@@ -179,38 +183,25 @@ Proof. exact resolve_undefined_escape. Qed.
 Print Assumptions undefined_name_defaults.
 
 Theorem unregistered_name_defaults :
-  forall ops bib bbb name, no_alias ops ->
+  forall ops bib bbb name,
     let s := fst (prun (screen_init bib bbb) ops) in
     plookup name (s_palette s) = None ->
     decode_sgr (attr_to_escape s (DName name)) = t_reset.
 Proof.
-  intros ops bib bbb name Hn s Hp. apply resolve_undefined; [|exact Hp].
-  apply prun_consistent; [apply init_consistent | exact Hn].
+  intros ops bib bbb name s Hp. apply resolve_undefined; [|exact Hp].
+  apply prun_consistent. apply init_consistent.
 Qed.
 Print Assumptions unregistered_name_defaults.
-
-(* The full clause includes (name, like_name) aliases.  It is FALSE of the faithful model:
-   register_palette copies the palette entry but never creates the escape sequence. *)
-Definition palette_resolves_full : Prop :=
-  forall ops bib bbb name e a,
-    let s := fst (prun (screen_init bib bbb) ops) in
-    plookup name (s_palette s) = Some e -> select_spec (s_colors s) e = Ok a ->
-    attr_to_escape s (DName name) = attrspec_to_escape (s_bib s) (s_bbb s) a.
 
 Definition red_on_blue : aspec :=
   ASpec false false true 9 false false true 4 false false false false false false.
 Definition red_entry : pentry := PE red_on_blue default_spec red_on_blue red_on_blue red_on_blue.
 
-(* witness: register 'a' = light red on dark blue, then ('b', 'a'): 'b' is drawn default/default.
-   Replayed on the implementation: corpus/C17/alias_default.json *)
-Theorem palette_resolves_full_refuted : ~ palette_resolves_full.
-Proof.
-  intro H.
-  specialize (H [RegEntry (Some 0) false red_entry; RegAlias (Some 1) (Some 0)] false false (Some 1) red_entry red_on_blue
-                eq_refl eq_refl).
-  vm_compute in H. discriminate.
-Qed.
-Print Assumptions palette_resolves_full_refuted.
+(* regression for the repaired defect: register 'a' = light red on dark blue, then ('b', 'a') *)
+Example alias_gets_escape :
+  let s := fst (prun (screen_init false false) [RegEntry (Some 0) false red_entry; RegAlias (Some 1) (Some 0)]) in
+  attr_to_escape s (DName (Some 1)) = [0; 91; 44].
+Proof. vm_compute. reflexivity. Qed.
 
 (* ================= non-vacuity ================= *)
 (* ("a", ["xy", ("b", "z"), (None, "w")]) : text, runs with the trailing None run dropped *)
@@ -228,17 +219,20 @@ Proof. vm_compute. reflexivity. Qed.
 (* "a" + 2-byte char + wide 3-byte char, tags 1,1,2; right-aligned in 6 columns, then an
    out-of-order second line re-reading from offset 0 (walker reset) *)
 Example layout_somewhere :
-  apply_text_layout [Chr 1 1; Chr 2 1; Chr 3 2] [(Some 1, 2); (Some 2, 1)]
+  apply_text_layout false [Chr 1 1 true; Chr 2 1 false; Chr 3 2 false] [(Some 1, 2); (Some 2, 1)]
                     [[SPad 2 None; SText 4 0 3]; [SText 1 0 1; SIns 1 1 3 3 1]] 6
   = Ok [[(None, 2); (Some 1, 3); (Some 2, 3)]; [(Some 1, 4); (None, 4)]].
 Proof. vm_compute. reflexivity. Qed.
 
 Example layout_hypotheses_satisfiable :
-  Forall (fun c => 1 <= c_enc c) [Chr 1 1; Chr 2 1; Chr 3 2] /\
+  enc_ok false [Chr 1 1 true; Chr 2 1 false; Chr 3 2 false] /\
   nonneg [(Some 1, 2); (Some 2, 1)] /\
-  Forall (Forall (wf_seg [Chr 1 1; Chr 2 1; Chr 3 2])) [[SPad 2 None; SText 4 0 3]; [SText 1 0 1; SIns 1 1 3 3 1]].
+  Forall (Forall (wf_seg [Chr 1 1 true; Chr 2 1 false; Chr 3 2 false]))
+         [[SPad 2 None; SText 4 0 3]; [SText 1 0 1; SIns 1 1 3 3 1]].
 Proof.
-  repeat (first [apply Forall_nil | apply Forall_cons | split]); cbn; unfold zlen; cbn; try lia; exact I.
+  unfold enc_ok.
+  repeat (first [apply Forall_nil | apply Forall_cons | split]); cbn; unfold zlen; cbn;
+    try lia; try (intros [?|?]; (discriminate || lia)).
 Qed.
 
 (* AttrMap({1:3, None:4}, focus_map {1:5}) around AttrMap({2:1}) around a leaf, in a Pile at focus *)
